@@ -1288,12 +1288,16 @@ func runCase(e *env, sp spec, dir string) *caseOut {
 						res.Fail(cls, fmt.Sprintf("importer stored a block the validator rejects: %s [%s]", vierr, strings.Join(sp.Names, ",")), sp)
 					}
 				}
-			} else if rc.garble[base.BlockItemProposal] && len(rc.garble) == 1 {
-				explained = true
-				res.Fail("import-proposal-vs-manifest", fmt.Sprintf("importer stored a block whose proposal does not decode: %s", vierr), sp)
-			} else if rc.garble[base.BlockItemOperationsTree] && len(rc.garble) == 1 {
-				explained = true
-				res.Fail("import-operations-vs-tree-vs-manifest", fmt.Sprintf("importer stored a block whose operations tree does not decode: %s", vierr), sp)
+			} else {
+				// some item does not decode; the importer only lets the two items through that it never decodes
+				if rc.garble[base.BlockItemProposal] {
+					explained = true
+					res.Fail("import-proposal-vs-manifest", fmt.Sprintf("importer stored a block whose proposal does not decode: %s", vierr), sp)
+				}
+				if rc.garble[base.BlockItemOperationsTree] {
+					explained = true
+					res.Fail("import-operations-vs-tree-vs-manifest", fmt.Sprintf("importer stored a block whose operations tree does not decode: %s", vierr), sp)
+				}
 			}
 			if !explained {
 				res.Fail("import-stored-but-validator-rejects", fmt.Sprintf("%s [%s]", vierr, strings.Join(sp.Names, ",")), sp)
@@ -1415,13 +1419,19 @@ func main() {
 		}(i)
 	}
 	wg.Wait()
+	perClass := map[string]int{}
 	for _, c := range outs {
 		res.Count(c.key, c.nontrivial)
 		for _, d := range c.dists {
 			res.Dist(d)
 		}
 		for _, f := range c.fails {
-			res.Fail(f.Class, f.Desc, f.Replay)
+			// vh.Result keeps 200 failures: at most 12 per class, so that no class can crowd another one out
+			if perClass[f.Class]++; perClass[f.Class] <= 12 {
+				res.Fail(f.Class, f.Desc, f.Replay)
+			} else {
+				res.Dist("oracle_fail:" + f.Class)
+			}
 		}
 		cases.Add(c.term, c.desc)
 		res.Sample(c.sample)
